@@ -239,6 +239,8 @@ def gen_budget(rnd, profile=None):
             'rule_mode': rnd.choice([None, 'first_match', 'most_specific', 'most_specific']), 'sources': sources,
             'rules': gen_rules(rnd, kind, want_supp),
             'views': rnd.choice([None, None, [list(v) for v in rnd.sample(VIEW_POOL, rnd.choice([1, 2, 3]))]])}
+    if rnd.random() < 0.08:
+        spec['layout'] = rnd.choice(['symlink', 'symlink-decoy'])
     if spec['rules'].get('case_pairs'):
         # make sure both members of each case pair really show up in the report
         tgt = rnd.choice([s for s in sources if not s['supplemental']])
@@ -403,40 +405,62 @@ def views_text(v):
     return '\n'.join(f'[{n}]\nfilter: {f}\n' for n, f in v)
 
 
+def budget_root(spec, root):
+    """The budget directory (parent of the config dir the command is pointed at, and of data/)."""
+    return os.path.join(root, 'y2023') if spec.get('layout') else root
+
+
 def materialize(spec, root):
-    """(Re)create the budget directory `root` from the spec; returns the config dir."""
+    """(Re)create the budget under `root` from the spec; returns the config dir to hand to the command.
+    spec['layout']: None — <root>/config + <root>/data;
+      'symlink'       — shared config, per-year data: <root>/shared/config is the real directory,
+                        <root>/y2023/config -> ../shared/config is a SYMLINK, the data lives in <root>/y2023/data;
+      'symlink-decoy' — the same, plus different files of the same names in <root>/shared/data (next to the link target).
+    A source may carry 'encoding' (default utf-8): how its file is encoded on disk."""
     if os.path.isdir(root):
         shutil.rmtree(root)
-    os.makedirs(os.path.join(root, 'config'))
-    os.makedirs(os.path.join(root, 'data'))
-    with open(os.path.join(root, 'config', 'settings.yaml'), 'w') as f:
+    broot = budget_root(spec, root)
+    layout = spec.get('layout')
+    cdir = os.path.join(root, 'shared', 'config') if layout else os.path.join(root, 'config')
+    os.makedirs(cdir)
+    os.makedirs(os.path.join(broot, 'data'))
+    if layout:
+        os.symlink(os.path.join('..', 'shared', 'config'), os.path.join(broot, 'config'))
+    with open(os.path.join(cdir, 'settings.yaml'), 'w', encoding='utf-8') as f:
         f.write(settings_yaml(spec))
     r = spec['rules']
     if r['kind'] == 'rules':
-        with open(os.path.join(root, 'config', 'merchants.rules'), 'w') as f:
+        with open(os.path.join(cdir, 'merchants.rules'), 'w', encoding='utf-8') as f:
             f.write(rules_text(r))
     elif r['kind'] == 'csv':
-        with open(os.path.join(root, 'config', 'merchant_categories.csv'), 'w') as f:
+        with open(os.path.join(cdir, 'merchant_categories.csv'), 'w', encoding='utf-8') as f:
             f.write(csv_rules_text(r))
     if spec.get('views') is not None:
-        with open(os.path.join(root, 'config', 'views.rules'), 'w') as f:
+        with open(os.path.join(cdir, 'views.rules'), 'w', encoding='utf-8') as f:
             f.write(views_text(spec['views']))
     for s in spec['sources']:
-        p = os.path.join(root, s['file'])
+        p = os.path.join(broot, s['file'])
         st = s['state']
+        if layout == 'symlink-decoy' and st == 'present':
+            decoy = copy.deepcopy(s)
+            decoy['rows'] = [dict(r_, q=r_['q'] + 400, desc='DECOY ' + r_['desc']) for r_ in s['rows']][:2]
+            dp = os.path.join(root, 'shared', s['file'])
+            os.makedirs(os.path.dirname(dp), exist_ok=True)
+            with open(dp, 'wb') as f:
+                f.write(file_text(decoy).encode('utf-8'))
         if st == 'missing':
             continue
         if st == 'dir':
             os.makedirs(p)
             continue
-        data = file_text(s).encode('utf-8')
+        data = file_text(s).encode(s.get('encoding') or 'utf-8')
         if st == 'badutf8':
             data += b'2025-01-01,CAF\xe9 \xff,1.00\n'
         if st == 'csvlimit':
             data += b'"' + b'x,1\n' * 40000
         with open(p, 'wb') as f:
             f.write(data)
-    return os.path.join(root, 'config')
+    return os.path.join(broot, 'config')
 
 
 def simple_source(name, file, rows, **kw):
@@ -693,6 +717,20 @@ def toggle(spec, kind, i, rnd):
             b['views'] = b['views'][1:] or None
         else:
             b['views'] = [list(VIEW_POOL[1]), list(VIEW_POOL[0])]
+    elif kind == 'ascii':
+        # the same file with every non-ASCII letter replaced by an ASCII one (and plain UTF-8 on disk)
+        changed = False
+        for r in s['rows']:
+            d2 = ''.join(c if ord(c) < 128 else 'e' for c in r['desc'])
+            changed = changed or d2 != r['desc']
+            r['desc'] = d2
+        if s.get('encoding'):
+            s['encoding'] = None
+            changed = True
+        if not changed:
+            return None
+    elif kind == 'layout':
+        b['layout'] = None if b.get('layout') else 'symlink-decoy'
     elif kind == 'rename':
         taken = {x['name'] for x in b['sources']}
         s['name'] = next(n for n in ['Acct Nine', 'Acct Ten', 'Acct Eleven', 'Acct Twelve', 'Acct Thirteen'] if n not in taken)
